@@ -336,8 +336,15 @@ def rule_wr(ctx):
     K.api_wiring(ctx, 'WR', only=('catch', 'filter'), floor=2)
 
 
+def rule_st(ctx):
+    """catch(E): the stage catches exactly E (an empty selection catches nothing)"""
+    n = K.ctor_stores_exact(ctx, 'ST', only=('CatchExceptionDataset', 'FilterDataset', 'PrefetchDataset'))
+    ctx.report.floor('parameter stores of the catching / filtering stages', n, 5)
+
+
 def run(ctx):
     rule_wr(ctx)
+    rule_st(ctx)
     rule_t6(ctx)
     rule_catch(ctx)
     rule_fp(ctx)
